@@ -66,17 +66,17 @@ const (
 	kInt
 	kBool
 	kErr
-	kJV      // interface{}, map[string]interface{}, *unstructured.Unstructured: a JSON tree
-	kResult  // *Result
-	kCond    // Condition
-	kBCond   // BasicCondition
-	kOWC     // *ObjWithConditions (represented by .Status.Conditions)
-	kOWCS    // ObjWithConditions.Status
-	kList    // []T
-	kFn      // GetConditionsFn
-	kGVK     // schema.GroupVersionKind
-	kStatus  // Status
-	kOpaque  // value of an expression that is not translated (message text)
+	kJV     // interface{}, map[string]interface{}, *unstructured.Unstructured: a JSON tree
+	kResult // *Result
+	kCond   // Condition
+	kBCond  // BasicCondition
+	kOWC    // *ObjWithConditions (represented by .Status.Conditions)
+	kOWCS   // ObjWithConditions.Status
+	kList   // []T
+	kFn     // GetConditionsFn
+	kGVK    // schema.GroupVersionKind
+	kStatus // Status
+	kOpaque // value of an expression that is not translated (message text)
 )
 
 type typ struct {
@@ -164,14 +164,14 @@ type transErr struct{ msg string }
 func bug(s string) transErr { return transErr{"internal: " + s} }
 
 type gen struct {
-	fset    *token.FileSet
-	funcs   map[string]*funcInfo
-	consts  map[string]*constInfo
-	structs map[string]*ast.StructType
-	pkgVars map[string]bool
-	order   []string // emitted definitions, callees first
-	defs    map[string]string
-	valueFns []string // functions used as GetConditionsFn values
+	fset            *token.FileSet
+	funcs           map[string]*funcInfo
+	consts          map[string]*constInfo
+	structs         map[string]*ast.StructType
+	pkgVars         map[string]bool
+	order           []string // emitted definitions, callees first
+	defs            map[string]string
+	valueFns        []string // functions used as GetConditionsFn values
 	dispatcherDone  bool
 	dispatcherBusy  bool
 	dispatcherClock bool
